@@ -294,6 +294,11 @@ func (bs *BinarySpray) NotifyNewBundle(bp BundleDescriptor) {
 			remainingCopies: bs.l,
 		}
 
+		// a bundle relayed by a node without binary spray support still names the node it came from
+		if pnBlock, err := bp.MustBundle().ExtensionBlock(bpv7.ExtBlockTypePreviousNodeBlock); err == nil {
+			metadata.sent = append(metadata.sent, pnBlock.Value.(*bpv7.PreviousNodeBlock).Endpoint())
+		}
+
 		bs.dataMutex.Lock()
 		bs.bundleData[bp.Id] = metadata
 		bs.dataMutex.Unlock()
